@@ -96,6 +96,11 @@ class CheckC04(core.Check):
                 for i in range(pre):
                     c.op(wop, w, pay="gen:5:pre%d" % i, buf=BIG, out="p%d_%d" % (j, i), flags=("q",))
                     c.op(rop, r, msg="$p%d_%d" % (j, i), buf=BIG, flags=("q",))
+                if kind in ("replay", "flip", "control", "reflect") and rnd.random() < 0.5:
+                    # put both counters of this direction at a boundary value (sender through the hook)
+                    bn = rnd.choice([2**32 - 1, 2**32, 2**63, 2**64 - 3, 2**64 - 2])
+                    c.op("set_tx_nonce", w, n=bn)
+                    c.op("set_rx_nonce", r, n=bn)
             kw = {"n": n0} if st else {}
             lw = c.op(wop, w, pay="gen:%d:pay%d" % (plen, j), buf=BIG, out="g%d" % j, **kw)
             target = r
